@@ -441,6 +441,27 @@ async fn wt_stream_task(name: String, mut st: WtStream, mb: Mailbox, ctx: Ctx) {
                 };
                 ctx.log(&name, "rd", out);
             }
+            // read until the end of the stream (or an error): all bytes, concatenated
+            "ra" => {
+                ctx.begin(&name, "ra");
+                let mut all = Vec::new();
+                let out = loop {
+                    let r = match &mut st {
+                        WtStream::Bidi(s) => poll_fn(|cx| s.poll_data(cx)).await,
+                        WtStream::Recv(s) => poll_fn(|cx| s.poll_data(cx)).await,
+                        WtStream::Send(_) => break "bad-cmd".to_string(),
+                    };
+                    match r {
+                        Ok(Some(mut b)) => all.extend_from_slice(&b.copy_to_bytes(b.remaining())),
+                        Ok(None) => break format!("data:{}:end", to_hex(&all)),
+                        Err(h3::quic::StreamErrorIncoming::StreamTerminated { error_code }) => {
+                            break format!("data:{}:err:rterm:{}", to_hex(&all), error_code)
+                        }
+                        Err(_) => break format!("data:{}:err:conn", to_hex(&all)),
+                    }
+                };
+                ctx.log(&name, "ra", out);
+            }
             "wr" => {
                 ctx.begin(&name, "wr");
                 let mut buf = Bytes::from(parse_hex(arg).unwrap_or_default());
